@@ -845,7 +845,10 @@ func convertToExp(parser *syntax.Parser, split bool, val json.Marshaler,
 			tname.ArrayDim = tname.MapDim - 1
 			tname.MapDim = 0
 		}
-		for k, v := range val {
+		// Convert the entries in sorted key order, so that the entry which
+		// is reported if several cannot be converted is repeatable.
+		for _, k := range val.sortedKeys() {
+			v := val[k]
 			vtype := tname
 			if isStruct {
 				vtype = structMemberType(tname, lookup, k)
@@ -870,7 +873,10 @@ func convertToExp(parser *syntax.Parser, split bool, val json.Marshaler,
 			tname.ArrayDim = tname.MapDim - 1
 			tname.MapDim = 0
 		}
-		for k, v := range val {
+		// Convert the entries in sorted key order, so that the entry which
+		// is reported if several cannot be converted is repeatable.
+		for _, k := range val.sortedKeys() {
+			v := val[k]
 			vtype := tname
 			if isStruct {
 				vtype = structMemberType(tname, lookup, k)
